@@ -10,12 +10,25 @@ boundary on the line through the centre, ratio sums to 1, entries >= 0 (for limi
 special cases (bias 1/2, pos 0, bias 0, unit limits), and the constructor domains over a universe of Python values.
 
 What is explored, not proved: the FLOAT evaluation.  The tie sends the exact rational value of the float inputs
-(Fraction(p), Fraction(bias), ...) to the driver, which answers the exact model value; the real floats must agree
-within |f - e| <= 1e-12 |e| + 1e-15 p (entries X,Y,Z; the additive floor covers the cancelling component of the
-negative limit) resp. + 1e-15 (Pr I = 1 - sum).  Biased-Y-X has no rational closed form: the real floats are
-substituted into the defining equations by the Lean checker `biasedYXResidual`; accepted when
-|p_x+p_y+p_z - p| <= 1e-9, |p_y - bias p_x| <= 1e-9 (1+bias), |p_z - (p_x+p_z)(p_y+p_z)| <= 1e-9; and, where the
-discriminant is a rational square (dyadic rate pairs), against the exact closed form `biasedYX?`.
+(Fraction(p), Fraction(bias), ...) to the driver, which answers the exact model value.  All tolerances are
+SCALE-AWARE (relative to the entry itself, never to 1): an entry X,Y,Z with exact value e must satisfy
+|f - e| <= 1e-14 e (+ a floor only where the DOCUMENTED formula itself subtracts: centre slice with pos < 0 gets
++ 1e-15 p |pos| for the cancelling component of the negative limit; biased-Y-X gets + 2e-15 r_x on p_x = r_x (1 - r_y)
+and + 2e-15 r_y on p_y = r_y (1 - r_x));  Pr(I) = 1 - sum gets + 1e-15.  In particular an entry whose exact value is
+positive must be positive and every documented ratio (high / sum of low = bias, Y : X = bias, slice ratio) holds to
+relative accuracy at bias 1e-15 just as at bias 1.  Measured on the unchanged tree (fix commits 6e154a9, edff675,
+2b01af0): relative error <= 4.6e-16 (cancellation-free entries), floors used up to 4.6e-16 r resp. 1.6e-16 p |pos|.
+Biased-Y-X has no rational closed form: (a) the real floats are substituted into the defining equations by the Lean
+checker `biasedYXResidual`; accepted when |p_x+p_y+p_z - p| <= 1e-12 p, |p_y - bias p_x| <= 1e-9 bias p_x +
+2e-15 (r_y + bias r_x), |p_z - r_x r_y| <= 1e-9 p_z (r_x = p_x+p_z, r_y = p_y+p_z); by `biasedYX_unique` vanishing
+residuals single out the model; (b) a rigorous rational ENCLOSURE of the documented closed form
+r_x = (a - s)/2, r_y = (b - s)/(2 bias), s = sqrt(a^2 - 4p) (s bracketed to 2^-400 by integer square roots) is
+compared entry by entry within the bound above, for every bias (log-spaced grid 1e-15 ... 1e15 and log-uniform random);
+(c) where the discriminant is a rational square (dyadic rate pairs), against the exact closed form `biasedYX?`.
+NOT flagged, by decision of the tolerance above: in the saturated corner min(1-r_x, 1-r_y) < ~1e-6 (p within ~3e-7
+of 1) the float 1 - r loses digits, so p_y / p_x deviates from bias by up to eps / min(1-r_x, 1-r_y) relative
+(e.g. bias 8e14, p = 1 - 2^-52: p_x = 3.2e-16 instead of 6.5e-16) while every entry stays within 5e-16 absolute;
+counted in the histogram `byx.ratio-rel>1e-9`.
 
 Direct monitors on the real floats (independent of the Lean model; a failure is a counterexample of the property):
 every entry finite and >= 0 — STRICTLY: numpy's Generator.choice, the consumer in SimpleErrorModel.generate, raises
@@ -45,11 +58,15 @@ from qv.core import rat
 
 LEVEL = 'proof'
 
-RULE = ('probability_distribution(p) of the real models on p in {0,1e-12,1e-6,.01,.1,.25,.5,.75,.9,1-1e-12,1} plus '
-        'uniform / log-uniform / within-ulps-of-1 random p; biased-depolarizing and biased-Y-X with bias 10^k '
-        '(k=-12..12), 0.5, 1, 10, 100 and log-uniform random, all axes; centre slice with limits having one or two '
-        'zeros (components from fixed and log-uniform values in [1e-12,1e12], ints and floats) and pos in '
-        '{-1,-.5,0,.5,1,+-1e-12, random}; constructor calls over a value universe (ints, bools, floats incl. -0.0, NaN, '
+RULE = ('probability_distribution(p) of the real models on p in {0,1e-30,1e-12,1e-6,.01,.1,.25,.5,.75,.9,.999,1-1e-6,'
+        '1-1e-12,1-2^-53,1} plus uniform / log-uniform (1e-30..1) / within-ulps-of-1 random p; biased-depolarizing and '
+        'biased-Y-X with bias 10^k (k=-15..15), 0.5, 1, 10, 100, 2^+-40 and log-uniform random (extra weight on '
+        '1e-15..1e-6 and 1e6..1e15), all axes; centre slice with limits having one or two zeros (components from '
+        'fixed and log-uniform values in [1e-15,1e15], ints and floats, near-tie pairs with relative offsets '
+        '1e-15..1e-3) and pos in {-1,-.5,0,.5,1,+-1e-12,+-(1-1e-12),+-(1-2^-53), random incl. log-uniform near 0 and '
+        'near +-1}; every entry compared RELATIVELY (1e-14, floors only where the documented formula subtracts) with '
+        'the exact value / a rigorous rational enclosure of the biased-Y-X closed form; constructor calls over a '
+        'value universe (ints, bools, floats incl. -0.0, NaN, '
         '+-inf, str, None, sequences of length 0..4 with zero / negative / non-finite components). Compared with the '
         'exact rational Lean model within the tolerance stated in the module docstring; direct monitors on the real '
         'floats. non-trivial = a case with 0 < p and a parameterised model, or a constructor rejection')
@@ -60,10 +77,14 @@ K_NF = 'CenterSliceErrorModel.nonfinite-limit-accepted'
 K_PI = 'probability_distribution.negative-identity-rounding'
 K_NL = 'CenterSliceErrorModel.neg-lim-rounding'
 
-REL = Fraction(1, 10 ** 12)
-ABS_I = Fraction(1, 10 ** 15)
+REL = Fraction(1, 10 ** 14)        # relative tolerance of every entry (clean tree: <= 4.6e-16)
+ABS_I = Fraction(1, 10 ** 15)      # additive floor of Pr(I) = 1 - sum
+FLOOR = Fraction(1, 10 ** 15)      # floor unit where the documented formula subtracts (scaled by p |pos| resp. 2 r)
 TOL = Fraction(1, 10 ** 12)
-RES = Fraction(1, 10 ** 9)
+RES = Fraction(1, 10 ** 9)         # relative residual of the bias / independence equations
+RES_SUM = Fraction(1, 10 ** 12)    # relative residual of p_x + p_y + p_z = p
+SQRT_BITS = 400
+TINY = Fraction(1, 10 ** 290)      # below this a double underflows: no positivity / relative claim
 NAMES = 'IXYZ'
 SIMPLE = ('dep', 'bf', 'pf', 'bpf')
 
@@ -163,6 +184,59 @@ def spec(model, args, p):
     return None
 
 
+def byx_enclosure(bias, p):
+    """rigorous enclosure of the documented biased-Y-X closed form at the exact rational inputs:
+    (lo[4], hi[4], (r_x upper bound, r_y upper bound)).  r_x = (a - s)/2, r_y = (b - s)/(2 bias) with a = 1+h+p-hp,
+    b = 1+h-p+hp, s = sqrt(a^2 - 4p) = sqrt(b^2 - 4h^2 p) bracketed by integer square roots to 2^-SQRT_BITS
+    (both rates decrease in s).  Written from the docstring / the Lean model `biasedYXWith`, not from the code."""
+    h, p = Fraction(bias), Fraction(p)
+    if h == 0:
+        e = [1 - p, p, Fraction(0), Fraction(0)]
+        return e, e, (p, Fraction(0))
+    a, b = 1 + h + p - h * p, 1 + h - p + h * p
+    disc = a * a - 4 * p
+    assert disc >= 0
+    r = math.isqrt((disc.numerator << (2 * SQRT_BITS)) // disc.denominator)
+    s_lo, s_hi = Fraction(r, 1 << SQRT_BITS), Fraction(r + 1, 1 << SQRT_BITS)
+    if s_lo * s_lo == disc:
+        s_hi = s_lo
+    one, zero = Fraction(1), Fraction(0)
+    rx_lo, rx_hi = max(zero, (a - s_hi) / 2), min(one, (a - s_lo) / 2)
+    ry_lo, ry_hi = max(zero, (b - s_hi) / (2 * h)), min(one, (b - s_lo) / (2 * h))
+    lo = [None, rx_lo * (1 - ry_hi), ry_lo * (1 - rx_hi), rx_lo * ry_lo]
+    hi = [None, rx_hi * (1 - ry_lo), ry_hi * (1 - rx_lo), rx_hi * ry_hi]
+    lo[0], hi[0] = 1 - p, 1 - p
+    return lo, hi, (rx_hi, ry_hi)
+
+
+def bounds(model, args, p):
+    """(lo, hi, rates): the exact documented distribution lies in [lo, hi] entrywise (lo = hi for the rational
+    models); rates = upper bounds of (r_x, r_y) for biased-Y-X, else None"""
+    if model == 'byx':
+        return byx_enclosure(args[0], p)
+    e = spec(model, args, p)
+    return e, e, None
+
+
+def entry_tol(model, args, p, i, e, rates):
+    """allowed |float - exact| of entry i whose exact value is e: relative, plus a floor only where the documented
+    formula itself subtracts nearly equal numbers (module docstring)"""
+    if i == 0:
+        return REL * abs(e) + ABS_I
+    t = REL * abs(e)
+    if model == 'slice' and Fraction(args[1]) < 0:
+        t += FLOOR * p * abs(Fraction(args[1]))
+    if model == 'byx' and i in (1, 2) and Fraction(args[0]) != 0:
+        t += 2 * FLOOR * rates[i - 1]
+    return t
+
+
+def entry_ok(model, args, p, i, f, lo, hi, rates):
+    f = Fraction(f)
+    return lo[i] - entry_tol(model, args, p, i, lo[i], rates) <= f <= hi[i] + entry_tol(model, args, p, i, hi[i],
+                                                                                           rates)
+
+
 def close(f, e, floor):
     return abs(Fraction(f) - e) <= REL * abs(e) + floor
 
@@ -199,6 +273,7 @@ def evaluate(model, args, p):
         return st, d, fails
     pf = Fraction(p)
     e = spec(model, args, pf)
+    lo, hi, rates = bounds(model, args, pf)
     F = [Fraction(x) for x in d]
     for i, x in enumerate(d):
         if x < 0:
@@ -232,14 +307,26 @@ def evaluate(model, args, p):
             fails.append(('high rate / sum of low rates = {!r}, not bias'.format(
                 float(F[i] / sum(lows)) if sum(lows) else None), None))
     elif model == 'byx':
-        r1, r2, r3 = byx_residuals(pf, Fraction(args[0]), F)
-        if not byx_res_ok(Fraction(args[0]), r1, r2, r3):
-            fails.append(('defining equations violated: p_x+p_y+p_z-p = {:.3e}, p_y - bias p_x = {:.3e}, '
-                          'p_z - r_x r_y = {:.3e}'.format(float(r1), float(r2), float(r3)), kk))
-    if e is not None:
-        for i in (1, 2, 3):
-            if not close(d[i], e[i], ABS_I * pf):
-                fails.append(('Pr({}) = {!r}, documented value {!r}'.format(NAMES[i], d[i], float(e[i])), kk))
+        h = Fraction(args[0])
+        r1, r2, r3 = byx_residuals(pf, h, F)
+        if not byx_res_ok(pf, h, F, r1, r2, r3):
+            fails.append(('defining equations violated: (p_x+p_y+p_z-p)/p = {:.3e}, (p_y - bias p_x)/(bias p_x) = '
+                          '{:.3e}, (p_z - r_x r_y)/p_z = {:.3e}'.format(
+                              *[float(r / q) if q else float(r) for r, q in ((r1, pf), (r2, h * F[1]), (r3, F[3]))]),
+                          kk))
+        if h > 0 and 0 < pf < 1:
+            # only bias exactly zero is the pure X model: Y and Z are in the support for every positive bias
+            for i in (2, 3):
+                if lo[i] >= TINY and d[i] <= 0:
+                    fails.append(('Pr({}) = {!r} although bias = {!r} > 0 and 0 < p < 1 (documented Y:X = bias; '
+                                  'exact value {:.6e})'.format(NAMES[i], d[i], args[0], float(lo[i])), None))
+    for i in (1, 2, 3):
+        if hi[i] != 0 and hi[i] < TINY:
+            continue        # underflow range of doubles
+        if not entry_ok(model, args, pf, i, d[i], lo, hi, rates):
+            fails.append(('Pr({}) = {!r}, documented value {!r} (relative error {:.3e})'.format(
+                NAMES[i], d[i], float(lo[i]), float(abs(F[i] - lo[i]) / lo[i]) if lo[i] else float('inf')),
+                None))
     return st, d, fails
 
 
@@ -247,8 +334,14 @@ def byx_residuals(p, b, F):
     return (F[1] + F[2] + F[3] - p, F[2] - b * F[1], F[3] - (F[1] + F[3]) * (F[2] + F[3]))
 
 
-def byx_res_ok(b, r1, r2, r3):
-    return abs(r1) <= RES and abs(r2) <= RES * (1 + b) and abs(r3) <= RES
+def byx_res_ok(p, b, F, r1, r2, r3):
+    """scale-aware acceptance of the residuals of the defining equations: each relative to the quantity it
+    constrains; the bias equation gets the floor 2e-15 (r_y + bias r_x) of the two documented subtractions
+    p_x = r_x (1 - r_y), p_y = r_y (1 - r_x), with r_x = p_x + p_z and r_y = p_y + p_z read off the candidate"""
+    rx, ry = F[1] + F[3], F[2] + F[3]
+    return (abs(r1) <= RES_SUM * p and
+            abs(r2) <= RES * b * abs(F[1]) + 2 * FLOOR * (abs(ry) + b * abs(rx)) and
+            abs(r3) <= RES * abs(F[3]) + TINY)
 
 
 # ------------------------------------------------------------------------------------------ wire helpers
@@ -291,14 +384,16 @@ def parse_rats(toks):
     return [Fraction(t) for t in toks]
 
 
-def dist_post(d, p):
+def dist_post(d, p, model, args):
     def post(reply):
         t = reply.split()
         if t[0] != 'ok':
             return reply
         e = parse_rats(t[1:5])
         pf = Fraction(p)
-        bad = [NAMES[i] for i in range(4) if not close(d[i], e[i], ABS_I if i == 0 else ABS_I * pf)]
+        rates = (e[1] + e[3], e[2] + e[3])
+        bad = [NAMES[i] for i in range(4) if not (0 < e[i] < TINY) and
+               abs(Fraction(d[i]) - e[i]) > entry_tol(model, args, pf, i, e[i], rates)]
         return 'ok' if not bad else 'differs in ' + ','.join(bad) + ' model=' + ' '.join(
             repr(float(x)) for x in e)
     return post
@@ -306,8 +401,9 @@ def dist_post(d, p):
 
 # ------------------------------------------------------------------------------------------ generators
 
-P_GRID = [0.0, 1e-12, 1e-6, 0.01, 0.1, 0.25, 0.5, 0.75, 0.9, 1 - 1e-12, 1.0]
-BIAS_GRID = [10.0 ** k for k in range(-12, 13)] + [0.5, 1, 10, 100]
+P_GRID = [0.0, 1e-30, 1e-12, 1e-6, 0.01, 0.1, 0.25, 0.5, 0.75, 0.9, 0.999, 1 - 1e-6, 1 - 1e-12, 1 - 2.0 ** -53, 1.0]
+BIAS_GRID = [10.0 ** k for k in range(-15, 16)] + [0.5, 1, 10, 100, 3e-10, 7e-14, 2.0 ** -40, 2.0 ** 40]
+POS_GRID = [-1, -0.5, 0, 0.5, 1, 1e-12, -1e-12, 1 - 1e-12, -(1 - 1e-12), 1 - 2.0 ** -53, -(1 - 2.0 ** -53)]
 
 
 def rand_p(rng):
@@ -315,7 +411,7 @@ def rand_p(rng):
     if c < 0.45:
         return rng.random()
     if c < 0.7:
-        return 10.0 ** rng.uniform(-12, 0)
+        return 10.0 ** rng.uniform(-30, 0)
     if c < 0.85:
         return 1 - 10.0 ** rng.uniform(-16, -1)
     if c < 0.95:
@@ -325,8 +421,10 @@ def rand_p(rng):
 
 def rand_bias(rng):
     c = rng.random()
-    if c < 0.7:
-        return 10.0 ** rng.uniform(-12, 12)
+    if c < 0.55:
+        return 10.0 ** rng.uniform(-15, 15)
+    if c < 0.7:          # tiny and huge biases: where a tolerance-based "is it zero / infinite" shortcut would bite
+        return 10.0 ** (rng.choice([-1, 1]) * rng.uniform(6, 15))
     if c < 0.85:
         return rng.choice(BIAS_GRID)
     return rng.choice([0.5, 1, 2, 3, 10, 100, 1000]) if c < 0.95 else rng.uniform(0, 2)
@@ -335,10 +433,10 @@ def rand_bias(rng):
 def rand_comp(rng):
     c = rng.random()
     if c < 0.35:
-        return rng.choice([1, 2, 3, 0.5, 1.0, 0.25, 7, 1e-6, 1e6, 1e-12, 1e12])
+        return rng.choice([1, 2, 3, 0.5, 1.0, 0.25, 7, 1e-6, 1e6, 1e-12, 1e12, 1e-15, 1e15])
     if c < 0.7:
         return rng.random() or 0.5
-    return 10.0 ** rng.uniform(-12, 12)
+    return 10.0 ** rng.uniform(-15, 15)
 
 
 def rand_lim(rng):
@@ -346,17 +444,28 @@ def rand_lim(rng):
     zeros = rng.choice([(0,), (1,), (2,), (0, 1), (0, 2), (1, 2)])
     for i in zeros:
         lim[i] = rng.choice([0, 0.0])
-    if len(zeros) == 1 and rng.random() < 0.15:     # near the tie of the negative-limit branch
+    if len(zeros) == 1 and rng.random() < 0.25:     # near the tie of the negative-limit branch
         a, b = [i for i in range(3) if i not in zeros]
-        lim[b] = lim[a] if rng.random() < 0.5 else math.nextafter(lim[a], rng.choice([0.0, math.inf])) \
-            if isinstance(lim[a], float) else lim[a]
+        c = rng.random()
+        if c < 0.3 or not isinstance(lim[a], float):
+            lim[b] = lim[a]
+        elif c < 0.6:
+            lim[b] = math.nextafter(lim[a], rng.choice([0.0, math.inf]))
+        else:            # relative offsets 1e-15 ... 1e-3: the negative limit has one component of that size
+            lim[b] = lim[a] * (1 + rng.choice([-1, 1]) * 10.0 ** rng.uniform(-15, -3))
     return tuple(lim)
 
 
 def rand_pos(rng):
     c = rng.random()
-    if c < 0.5:
+    if c < 0.4:
         return rng.choice([-1, -1.0, -0.5, 0, 0.0, 0.5, 1, 1.0, 1e-12, -1e-12, -0.999999, 0.999999])
+    if c < 0.55:         # near the limits +-1
+        return rng.choice([-1, 1]) * (1 - 10.0 ** rng.uniform(-16, -3))
+    if c < 0.6:
+        return rng.choice([-1, 1]) * (1 - rng.randrange(0, 4) * 2.0 ** -53)
+    if c < 0.72:         # near the centre
+        return rng.choice([-1, 1]) * 10.0 ** rng.uniform(-16, -3)
     return rng.uniform(-1, 1)
 
 
@@ -416,17 +525,20 @@ def one_case(ctx, model, args, p):
     if model == 'byx':
         b = args[0]
         ctx.count('byx.bias.decade', 'zero' if b == 0 else int(math.floor(math.log10(b))))
+        if d[1] > 0 and b > 0 and abs(Fraction(d[2]) - Fraction(b) * Fraction(d[1])) > RES * Fraction(b) * Fraction(
+                d[1]):
+            ctx.count('byx.ratio-rel>1e-9', 'saturated corner (1-p < 1e-6)' if 1 - p < 1e-6 else 'ELSEWHERE')
         known = any(k == K_D3 for _, k in fails)
         line = 'c16 yxres {} {} {} {} {}'.format(rat(p), rat(b), rat(d[1]), rat(d[2]), rat(d[3]))
 
-        def post(reply, b=b, known=known):
+        def post(reply, b=b, known=known, p=p, d=d):
             t = reply.split()
             if t[0] != 'ok':
                 return reply
             r1, r2, r3, disc = parse_rats(t[1:5])
             if disc < 0:
                 return 'model discriminant negative'
-            if byx_res_ok(Fraction(b), r1, r2, r3) or known:
+            if byx_res_ok(Fraction(p), Fraction(b), [Fraction(x) for x in d], r1, r2, r3) or known:
                 return 'ok'            # (known: already reported under the known-defect key by the monitor)
             return 'residuals {:.3e} {:.3e} {:.3e}'.format(float(r1), float(r2), float(r3))
         ctx.case(line, 'ok', nontrivial=nt, meta=meta, post=post)
@@ -438,7 +550,7 @@ def one_case(ctx, model, args, p):
             ctx.count('slice.zeros', sum(1 for x in args[0] if x == 0))
             ctx.count('slice.pos', 'neg' if args[1] < 0 else 'zero' if args[1] == 0 else 'one' if args[1] == 1
                       else 'pos')
-        ctx.case(dist_line(model, args, p), 'ok', nontrivial=nt, meta=meta, post=dist_post(d, p))
+        ctx.case(dist_line(model, args, p), 'ok', nontrivial=nt, meta=meta, post=dist_post(d, p, model, args))
     return st, d
 
 
@@ -593,8 +705,8 @@ def run(ctx):
             one_case(ctx, 'byx', (b,), p)
         one_case(ctx, 'byx', (0,), p)
         for lim in [(1, 0, 0), (0, 1, 0), (0, 0, 1), (1, 1, 0), (0, 1, 1), (1, 0, 1), (0.9, 0.1, 0), (0, 2, 6),
-                    (1e-12, 0, 1e12), (3, 0, 3.0000000000000004)]:
-            for pos in (-1, -0.5, 0, 0.5, 1):
+                    (1e-12, 0, 1e12), (3, 0, 3.0000000000000004), (1e-15, 1e15, 0), (0, 1.0, 1.000000001)]:
+            for pos in POS_GRID:
                 one_case(ctx, 'slice', (lim, pos), p)
         special_cases(ctx, p, rng)
     for lim in [(1, 0, 0), (0, 5, 0), (0, 0, 0.1), (1, 1, 0), (0.9, 0.1, 0), (0.1, 0.9, 0), (0, 2, 6), (7, 0, 1)]:
@@ -606,7 +718,7 @@ def run(ctx):
         ctx.count('byx.exact', st)
         if st == 'ok':
             ctx.case('c16 yxexact {} {}'.format(rat(h), rat(p)), 'ok', nontrivial=True,
-                     meta={'model': 'byx', 'args': [h], 'p': p}, post=dist_post(d, p))
+                     meta={'model': 'byx', 'args': [h], 'p': p}, post=dist_post(d, p, 'byx', (h,)))
     # random
     for _ in range(ctx.scale(8000, 150000)):
         p = rand_p(rng)
@@ -621,12 +733,14 @@ def run(ctx):
             special_cases(ctx, p, rng)
     ctx.explored = {'float evaluation of the closed forms': {
         'evaluations': ctx.evaluations, 'exhaustive': False,
-        'rule': 'real floats within 1e-12 relative (+1e-15 p absolute) of the exact Lean model at the exact rational '
-                'value of the float inputs; biased-Y-X floats substituted into the defining equations by the Lean '
-                'checker (residual <= 1e-9, scaled by 1+bias for the bias equation)'}}
+        'rule': 'real floats within 1e-14 relative (floors 1e-15 p |pos| for pos < 0, 2e-15 r for biased-Y-X p_x, p_y) '
+                'of the exact Lean model at the exact rational value of the float inputs; biased-Y-X floats '
+                'substituted into the defining equations by the Lean checker (relative residuals, module docstring) '
+                'and compared with a rigorous rational enclosure of the documented closed form'}}
     ctx.assumptions = ['IEEE-754 double arithmetic and math.sqrt of CPython / numpy as installed (not modelled)',
                        'fractions.Fraction (exact value of a float) in the harness',
-                       'bias restricted to [1e-12, 1e12] and limit components to [1e-12, 1e12]: beyond ~1e154 the '
+                       'bias restricted to [1e-15, 1e15], limit components to [1e-15, 1e15], p = 0 or p >= 1e-30 '
+                       '(entries below 1e-290 underflow and are not compared): beyond ~1e154 the '
                        'biased-Y-X closed form raises OverflowError (not explored)']
     return ctx.finish(RULE, search=search, explanation=__doc__)
 
